@@ -440,9 +440,9 @@ func TestSigOpCount(t *testing.T) {
 		{"2 0x21 0x" + strings.Repeat("02", 33) + " 0x21 0x" + strings.Repeat("03", 33) + " 2 CHECKMULTISIG", 2, 20},
 		{"CHECKMULTISIG", 20, 20},
 		{"16 CHECKMULTISIGVERIFY", 16, 20},
-		{"RETURN CHECKSIG", 1, 1},                // does not stop at OP_RETURN
+		{"RETURN CHECKSIG", 1, 1},                  // does not stop at OP_RETURN
 		{"CHECKSIG 0x4c 0x05 0x00 CHECKSIG", 1, 1}, // stops at the truncated push
-		{"0 CHECKMULTISIG", 20, 20},              // OP_0 is not OP_1..16
+		{"0 CHECKMULTISIG", 20, 20},                // OP_0 is not OP_1..16
 		{"IF CHECKSIG ELSE 3 CHECKMULTISIG ENDIF", 4, 21},
 	}
 	for _, c := range cases {
